@@ -20,13 +20,13 @@ def toggles_sym(c): return (c.symbool('t_withdrawals'), c.symbool('t_deposits'),
 def pair_paths(ck, prog, contract='pair'):
     tw, td, ts = z3.Bool('t_withdrawals'), z3.Bool('t_deposits'), z3.Bool('t_swaps')
     cases = []
-    for cfg in ('nc',):
-        kinds = KIND_CFGS[cfg]
-        cases += [('swap.native', lambda it, k=kinds: swap_body(k, 0, toggles=toggles_sym(it.ctx))(it), ts),
-                  ('swap.cw20_hook', lambda it, k=kinds: swap_body(k, 1, toggles=toggles_sym(it.ctx))(it), ts),
-                  ('provide', lambda it, k=kinds: provide_body(k, toggles=toggles_sym(it.ctx))(it), td),
-                  ('provide.first', lambda it, k=kinds: provide_body(k, first=True, toggles=toggles_sym(it.ctx))(it), td),
-                  ('withdraw.cw20_hook', lambda it, k=kinds: withdraw_body(k, toggles=toggles_sym(it.ctx))(it), tw)]
+    for cfg in (('nc',) if ck.tier == 'quick' else ('nc', 'cn', 'nn', 'cc')):
+        kinds = KIND_CFGS[cfg]; sfx = '' if cfg == 'nc' else '.' + cfg
+        cases += [('swap.o0' + sfx if cfg != 'nc' else 'swap.native', lambda it, k=kinds: swap_body(k, 0, toggles=toggles_sym(it.ctx))(it), ts),
+                  ('swap.o1' + sfx if cfg != 'nc' else 'swap.cw20_hook', lambda it, k=kinds: swap_body(k, 1, toggles=toggles_sym(it.ctx))(it), ts),
+                  ('provide' + sfx, lambda it, k=kinds: provide_body(k, toggles=toggles_sym(it.ctx))(it), td),
+                  ('provide.first' + sfx, lambda it, k=kinds: provide_body(k, first=True, toggles=toggles_sym(it.ctx))(it), td),
+                  ('withdraw.cw20_hook' + sfx, lambda it, k=kinds: withdraw_body(k, toggles=toggles_sym(it.ctx))(it), tw)]
     for name, body, bit in cases:
         paths = ck.explore(prog, body, 'pair.' + name)
         seen_ok = seen_dis = False
